@@ -220,6 +220,30 @@ def reference_at(xs, g, pt, sp):
             'Einstein_down': Ein}
 
 
+_NAT = {'gdown': ('gdown',), 'gup': ('gup',), 'gdet': ('gdet',),
+        'Gamma_down': ('Gamma_down', 'gdown'),
+        'Gamma_udd': ('Gamma_udd', 'Gamma_down'),
+        'Riemann_down': ('Riemann_down', 'Riemann_uddd', 'Gamma_down'),
+        'Riemann_uddd': ('Riemann_uddd', 'Gamma_udd'),
+        'Ricci_down': ('Ricci_down', 'Riemann_uddd'),
+        'RicciS': ('RicciS', 'Ricci_down', 'Riemann_uddd'),
+        'Einstein_down': ('Einstein_down', 'Ricci_down', 'Riemann_uddd',
+                          'Riemann_down')}
+
+
+def natural_scale(ref, key, sp):
+    m = 0.0
+    for k in _NAT[key]:
+        for w in _flat(ref[k], sp):
+            m = max(m, abs(complex(sp.N(w, 20))))
+    if key in ('RicciS', 'Einstein_down', 'Ricci_down'):
+        # products g^ij R_ij and g_ij R enter
+        gm = max(abs(complex(sp.N(w, 20))) for w in _flat(ref['gdown'], sp))
+        gu = max(abs(complex(sp.N(w, 20))) for w in _flat(ref['gup'], sp))
+        m = m * max(1.0, gm * gu)
+    return m
+
+
 def _flat(v, sp):
     if isinstance(v, (list, tuple)):
         out = []
@@ -306,7 +330,14 @@ def execute(run):
                     break
                 sub = dict(zip(xs, p))
                 worst = None
-                scale = max([abs(complex(sp.N(w, 20))) for w in want] + [1e-30])
+                scale = max([abs(complex(sp.N(w, 20))) for w in want]
+                            + [1e-30])
+                # the SUT works with the float 0.5: a quantity that vanishes
+                # by cancellation (e.g. the 2-D Einstein tensor) carries
+                # round-off of the size of its ingredients, so the tolerance
+                # is tied to the natural scale of the key, not to the (zero)
+                # result
+                scale = max(scale, natural_scale(ref, key, sp))
                 for ci, (a, b) in enumerate(zip(got, want)):
                     av = sp.N(sp.sympify(a).subs(sub), 30)
                     bv = sp.N(b, 30)
